@@ -559,7 +559,11 @@ fn process_layout(l: &Layout, prop: &str, tier: &str, z3: &mut Solver, cvc: &mut
     if layout_ok && layout_twin { st.nontrivial_layouts += 1; }
 }
 
+static REPLAYS_WRITTEN: std::sync::atomic::AtomicUsize = std::sync::atomic::AtomicUsize::new(0);
+
 fn write_replay(out_dir: &str, prop: &str, l: &Layout, mode: &str, dim: usize, subset: &[usize], vals: &[f64], what: &str) -> String {
+    // a broken model violates thousands of layouts: the first 25 replay files are enough
+    if REPLAYS_WRITTEN.fetch_add(1, std::sync::atomic::Ordering::Relaxed) >= 25 { return String::new(); }
     std::fs::create_dir_all(out_dir).ok();
     let h = {
         let s = format!("{:?}{mode}{subset:?}", l.masters);
